@@ -18,6 +18,8 @@ import TlxVerif.Proofs.C01Bulk
 import TlxVerif.Proofs.C01Verify
 import TlxVerif.Proofs.C01VerifyConv
 import TlxVerif.Proofs.C01Full
+import TlxVerif.Model.C01Trace
+import TlxVerif.Proofs.C01Arena
 namespace TlxVerif.C02
 open TlxVerif.C01
 
@@ -393,5 +395,66 @@ theorem inv_at_every_point (c : Cfg) (pv : c.p.Valid) (m0 m1 : Nat) (ops : List 
       lg.innerAlloc = lg.innerFree + (s'.t0.nInner + s'.t1.nInner) := by
   obtain ⟨s', outs, lg, h1, h2, h3, _, _, h6, h7, _⟩ := inv_all_histories_full c pv m0 m1 (ops.take n)
   exact ⟨s', outs, lg, h1, h2, h3, h6, h7⟩
+
+/-! ## every node is returned to the allocator instance it was obtained from
+
+`stepA` (Model/C01Machine.lean; what the driver executes) is `stepOp` together with the allocator instance
+each register's tree holds and the operation's ledger split by the instance each part goes through
+(`arenaParts`, in execution order).  The instances follow the code: the copy constructor and `operator=`
+take the source's instance unconditionally, *after* `clear()` has returned the old nodes through the old
+one; `BTree::swap` exchanges the instances with the trees; the wrappers' `std::swap` is copy + two
+assignments + destruction; the range constructor of the harness uses the register's own instance. -/
+
+/-- one operation: never undefined, invariant kept, and **for every allocator instance separately**
+`nodes of the trees holding it before + obtained from it = nodes after + returned to it` -/
+theorem allocator_instances_step (c : Cfg) (pv : c.p.Valid) (s : ASt) (h0 : TreeInv (c.params s.m.m0) s.m.t0)
+    (h1 : TreeInv (c.params s.m.m1) s.m.t1) (op : C01.Op) :
+    stepA c s op = .bad ∨
+    ∃ s' mo lg parts, stepA c s op = .ok (s', mo, lg, parts) ∧ TreeInv (c.params s'.m.m0) s'.m.t0 ∧
+      TreeInv (c.params s'.m.m1) s'.m.t1 ∧ ABal s s' parts ∧ sumAll parts = lg := by
+  rcases stepA_ok c pv s h0 h1 op with h | ⟨s', mo, lg, parts, g1, g2, g3, g4⟩
+  · exact Or.inl h
+  · exact Or.inr ⟨s', mo, lg, parts, g1, g2, g3, g4, parts_total c s op s' mo lg parts g1⟩
+
+/-- **every history of the whole operation language**, two registers constructed with different allocator
+instances: at the end (hence at every point) every instance has handed out exactly the nodes of the trees
+that hold it plus what was returned to it, and after destroying both containers — each through the instance
+it holds — every instance has got back everything it handed out -/
+theorem allocator_instances_all_histories (c : Cfg) (pv : c.p.Valid) (m0 m1 : Nat) (ops : List C01.Op) :
+    ∃ s' parts, runA c { m := { m0 := m0, m1 := m1 } } ops = some (s', parts) ∧
+      (∀ a, (sumFor a parts).leafAlloc = (sumFor a parts).leafFree + s'.liveL a ∧
+            (sumFor a parts).innerAlloc = (sumFor a parts).innerFree + s'.liveI a) ∧
+      (∀ a, (sumFor a (parts ++ [(s'.a0, (clear s'.m.t0).2), (s'.a1, (clear s'.m.t1).2)])).leafAlloc =
+              (sumFor a (parts ++ [(s'.a0, (clear s'.m.t0).2), (s'.a1, (clear s'.m.t1).2)])).leafFree ∧
+            (sumFor a (parts ++ [(s'.a0, (clear s'.m.t0).2), (s'.a1, (clear s'.m.t1).2)])).innerAlloc =
+              (sumFor a (parts ++ [(s'.a0, (clear s'.m.t0).2), (s'.a1, (clear s'.m.t1).2)])).innerFree) := by
+  obtain ⟨s', parts, h1, h2, h3, h4⟩ := runA_ok c pv ops { m := { m0 := m0, m1 := m1 } } (treeInv_empty _) (treeInv_empty _)
+  have k0 := clear_ledger_eq _ s'.m.t0 h2
+  have k1 := clear_ledger_eq _ s'.m.t1 h3
+  refine ⟨s', parts, h1, ?_, ?_⟩
+  · intro a
+    have := h4 a
+    simp only [ASt.liveL, ASt.liveI, Tree.nLeaves, Tree.nInner, if_true, Nat.add_zero, ite_self, Nat.zero_add] at this ⊢
+    omega
+  · intro a
+    have := h4 a
+    rw [sumFor_append]
+    simp only [sumFor, k0, k1, ASt.liveL, ASt.liveI, Tree.nLeaves, Tree.nInner, ite_self, Nat.add_zero, Nat.zero_add] at this ⊢
+    by_cases ha : s'.a0 = a <;> by_cases hb : s'.a1 = a <;> simp [ha, hb, Ledger.add] at this ⊢ <;> omega
+
+/-! ## the branch trace used for the coverage report
+
+`drv_c0x trace` reports for every erase which branch of `erase_one_descend` / `erase_iter_descend` each
+frame took in the model (checks/c01.py plans the deep-tree cases with it and puts the coverage table into
+the evidence).  The traced descent is the model's descent, and the reported row of the underflow case
+table is the row whose action the model executes. -/
+
+theorem trace_is_model (p : Params K) (tg : Target K) (h : Nat) (n : BNode K V) (ctx : Ctx K V) :
+    (eraseDescendT p tg h n ctx).map (Option.map Prod.fst) = eraseDescend p tg h n ctx :=
+  eraseDescendT_fst p tg h n ctx
+
+theorem trace_row_is_decision (minUse : Nat) (leftUse rightUse lp rp par : Option Nat) :
+    decideFix minUse leftUse rightUse lp rp par = (decideRow minUse leftUse rightUse lp rp par).fix :=
+  decideFix_eq_row minUse leftUse rightUse lp rp par
 
 end TlxVerif.C02
